@@ -104,7 +104,7 @@ class Ctx:
                 from .callgraph import CallGraph
                 self._cache[name] = CallGraph(self.repo)
             elif name == 'types':
-                from .types import TypeEngine
+                from .tyeng import TypeEngine
                 self._cache[name] = TypeEngine(self.repo, self.engine('cg'))
             elif name == 'effects':
                 from .effects import EffectsEngine
